@@ -953,9 +953,11 @@ impl Session {
             );
             let mut writer = self.writer.lock().await;
             if let Err(e) = writer.write_all(&buffer).await {
+                drop(writer);
                 return Err(self.handle_io_error("write_without_padding", e).await);
             }
             if let Err(e) = writer.flush().await {
+                drop(writer);
                 return Err(self.handle_io_error("flush_without_padding", e).await);
             }
             tracing::info!(
@@ -982,9 +984,11 @@ impl Session {
             // For now, just write directly
             let mut writer = self.writer.lock().await;
             if let Err(e) = writer.write_all(&buffer).await {
+                drop(writer);
                 return Err(self.handle_io_error("write_no_padding_stop", e).await);
             }
             if let Err(e) = writer.flush().await {
+                drop(writer);
                 return Err(self.handle_io_error("flush_no_padding_stop", e).await);
             }
             return Ok(());
@@ -997,9 +1001,11 @@ impl Session {
         if pkt_sizes.is_empty() {
             let mut writer = self.writer.lock().await;
             if let Err(e) = writer.write_all(&buffer).await {
+                drop(writer);
                 return Err(self.handle_io_error("write_no_padding_sizes", e).await);
             }
             if let Err(e) = writer.flush().await {
+                drop(writer);
                 return Err(self.handle_io_error("flush_no_padding_sizes", e).await);
             }
             return Ok(());
@@ -1045,6 +1051,7 @@ impl Session {
                     );
                 }
                 if let Err(e) = writer.write_all(&buffer[..size]).await {
+                    drop(writer);
                     return Err(self.handle_io_error("write_padding_split_payload", e).await);
                 }
                 buffer = buffer.split_off(size);
@@ -1066,6 +1073,7 @@ impl Session {
                 }
 
                 if let Err(e) = writer.write_all(&buffer).await {
+                    drop(writer);
                     return Err(self.handle_io_error("write_padding_payload_frame", e).await);
                 }
                 buffer.clear();
@@ -1078,6 +1086,7 @@ impl Session {
                 padding_frame.put_slice(&vec![0u8; size]); // padding data (zeros)
 
                 if let Err(e) = writer.write_all(&padding_frame).await {
+                    drop(writer);
                     return Err(self.handle_io_error("write_padding_frame_only", e).await);
                 }
             }
@@ -1090,12 +1099,14 @@ impl Session {
                 buffer.len()
             );
             if let Err(e) = writer.write_all(&buffer).await {
+                drop(writer);
                 return Err(self.handle_io_error("write_remaining_payload", e).await);
             }
         }
 
         tracing::trace!("[Session] write_with_padding: Flushing writer");
         if let Err(e) = writer.flush().await {
+            drop(writer);
             return Err(self.handle_io_error("flush_with_padding", e).await);
         }
         tracing::debug!("[Session] write_with_padding: Successfully wrote and flushed data");
@@ -1394,7 +1405,13 @@ impl Session {
     /// ids present in the stream table / the receiver table
     pub async fn verif_ids(&self) -> (Vec<u32>, Vec<u32>) {
         let mut a: Vec<u32> = self.streams.read().await.keys().copied().collect();
-        let mut b: Vec<u32> = self.stream_receive_tx.read().await.keys().copied().collect();
+        let mut b: Vec<u32> = self
+            .stream_receive_tx
+            .read()
+            .await
+            .keys()
+            .copied()
+            .collect();
         a.sort_unstable();
         b.sort_unstable();
         (a, b)
